@@ -8,6 +8,7 @@ Core Lean only (`Rat` is in core; it is needed for `Intersection` only: for inte
 function values `h` are integers).
 -/
 import SharkVerif.Model.Hypervolume
+import SharkVerif.Gen.SspPointLess
 namespace SharkVerif.SSP
 open SharkVerif.Pareto SharkVerif.HV
 
@@ -18,10 +19,10 @@ structure P2 where
   idx : Nat
   deriving Repr, DecidableEq
 
-/-- `Point::operator<` **as written in the C++**: the tie-break of the "lexicographic" order compares
-`f2` with `rhs.f1` (sic).  See finding C13-SSP-LEXLESS; `ptLtFixed` is the intended order. -/
-def ptLt (a b : P2) : Bool :=
-  if a.f1 < b.f1 then true else if b.f1 < a.f1 then false else decide (a.f2 < b.f1)
+/-- `Point::operator<` **as written in the C++** (regenerated from the source on every run by
+`translate/ssp_point_less.py`).  At the time of writing the tie-break of the "lexicographic" order compares
+`f2` with `rhs.f1` (sic), see finding C13-SSP-LEXLESS; `ptLtFixed` is the intended order. -/
+def ptLt (a b : P2) : Bool := SharkVerif.Gen.sspPointLess a.f1 a.f2 b.f1 b.f2
 
 def ptLtFixed (a b : P2) : Bool :=
   if a.f1 < b.f1 then true else if b.f1 < a.f1 then false else decide (a.f2 < b.f2)
